@@ -33,6 +33,9 @@ def qkeras_quantizer(o):
   raise ValueError(s)
 
 
+TWINS = {"binary": lambda: Q.stochastic_binary(), "ternary": lambda: Q.stochastic_ternary(), "binary01": lambda: Q.bernoulli()}
+
+
 def reported(q):
   mv = getattr(q, "max_val_po2", -1)
   hasmv = int(mv is not None and mv != -1)
@@ -71,6 +74,12 @@ def main():
       if prev is not None:
         events.append({"op": "alias", "same": int(reported(prev[0].output) == prev[1])})
       prev = (m, out)
+      # the stochastic classes emit the same alphabets as binary / ternary / binary(use_01): same type requirements
+      if (w["src"] in TWINS or x["src"] in TWINS) and ((a + 3 * b) % 4 == 0 or tier == "thorough"):
+        qa = qf.make_quantizer(TWINS[w["src"]]()) if w["src"] in TWINS else qt[a]
+        qb = qf.make_quantizer(TWINS[x["src"]]()) if x["src"] in TWINS else qt[b]
+        m2 = mf.make_multiplier(qa, qb)
+        events.append({"op": "mul", "w": w, "x": x, "out": reported(m2.output), "kind": m2.implemented_as(), "twin": 1})
     except Exception as e:
       errors.append({"k": "exc", "op": "mul", "w": w, "x": x, "exc": repr(e)[:200]})
       continue
